@@ -204,6 +204,28 @@ def dro_call():
                 mode="D", label=f"atom={xt},labels={'int' if labels is None else 'str'}", bounded=True, allow_exc=(NotImplementedError, ValueError))
             out += obs
 
+        # a STATIC atom plus an EVENT-WISE affine offset: the expression is event-wise, one value per scenario
+        for xt, mk in ATOMS.items():
+            def setup_o(c, xt=xt, mk=mk, labels=labels):
+                ns = _build(c, "adapt(1);adapt(0)", labels, affine=False)
+                k = c.fresh_real("k")
+                ns["k"] = k
+                ns["expr"] = k * mk(2 * ns["pad"] + 1) + 0.5 * ns["x"].sum()
+                ns["xt"] = xt
+                return ns
+
+            def want_o(ns, s):
+                vin = 2 * _rule_value(ns, s, ns["pad"]) + 1
+                params = (np.array(3), np.array(1)) if ns["xt"] == "T" else None
+                sign = -1 if ns["xt"] in "LP" else 1
+                return ns["k"] * sign * atoms.base(ns["xt"], vin, params) + 0.5 * sum(views.flat(_rule_value(ns, s, ns["x"])), 0.0)
+            obs, _ = check_function(
+                "rsome.lp:DecConvex.__call__", setup_o, lambda ns: ns["expr"](),
+                [post("value-per-scenario", lambda ns, res: _series_matches(ns, res, lambda s: want_o(ns, s), len(ns["x"].event_adapt)))],
+                mode="D", label=f"static atom={xt} + event-wise offset,labels={'int' if labels is None else 'str'}", bounded=True,
+                allow_exc=(NotImplementedError, ValueError))
+            out += obs
+
         # bi-affine expressions evaluated at an assigned realisation (and at zero when none is given)
         for given in (True, False):
             def setup_r(c, labels=labels, given=given):
